@@ -86,6 +86,18 @@ CHECKS["C11"] = {
     "note": "The arithmetic of split_with_escape and of the index helper on every path string and tree (escape handling, empty segments, boundaries) is value-level and not decided.",
     "technique": "variant specialisation matrices, forbidden-call scans over the lookup's call-graph reach (unit-of-measure rule for bytes vs chars), def-use shape rules",
 }
+CHECKS["C07"] = {
+    "level": "other",
+    "text": "Necessary structural conditions of abstract equality, for all pairs of values: != is the exact negation of == and both take (operand 0, operand 1); the outcome kind of the equality function for each of the 36 pairs of JSON kinds (variant specialisation) equals ECMA-262 IsLooselyEqual transcribed in spec/arms/abstract_eq.json (direct float/string/bool comparison, Number×String through the shared conversion, Bool by recursion with true→1/false→0, primitive×container by recursion through the string form, the rest constant false), symmetric in kind; numbers never compared by spelling; the shared string→number conversion trims exactly the ECMAScript white-space set (interval reading of the predicate), maps \"\" to 0, recognises exactly Infinity/+Infinity/-Infinity, 0x/0o/0b → 16/8/2, and gates Rust's float parser by the decimal alphabet.",
+    "note": "NOT decided: that the conversions compute ECMAScript StringToNumber / ToString on every string (digits, exponent forms, number formatting) — values, not shape. Symmetry of the relation follows from the matrix only together with symmetric conversions.",
+    "technique": "36-pair variant specialisation matrix vs. a transcribed ECMA-262 table; exact-negation rule; interval abstract interpretation of the character predicate; constant reading; dominance gate (A3)",
+}
+CHECKS["C08"] = {
+    "level": "other",
+    "text": "!== is the exact negation of ===, both on (operand 0, operand 1); the 36-pair matrix of the strict predicate (identity shortcut excluded) equals ECMA-262 IsStrictlyEqual on JSON kinds: only Null (constant true), Bool/String (payload equality) and Number (float Eq of as_f64 of both payloads, no integer accessor, no spelling equality) can be true, everything involving a container or mixed kinds is constant false; the identity shortcut cannot fire through the rule interface because the eager evaluator hands operators references into a freshly collected Vec<Value> of owned evaluation results and the closures pass two different operand indices; wherever === can be true, == uses the same direct comparison kind.",
+    "note": "IEEE equality of doubles (1 == 1.0, 0 == -0) is the language's; trusted.",
+    "technique": "36-pair variant specialisation matrix vs. transcribed ECMA-262 table; def-use freshness rule on the operand vector; sibling arm agreement",
+}
 NOT_APPLICABLE = {}
 for i in range(1, 20):
     p = "C%02d" % i
